@@ -329,3 +329,23 @@ Fixpoint coal_eval (en : env) (l : list expr) : res value :=
   | [] => Ok VNull
   | e :: l' => v <- sev en e;; if is_null v then coal_eval en l' else Ok v
   end.
+
+(* ------------------------------------------------------------------ region abstraction (E2-light) *)
+(* expressions whose atoms only compare column 0 (an integer column) with integer literals from [cs]: their value on a
+   row depends only on the REGION of the column value relative to the literals, so evaluating both expressions on one
+   representative per region (each literal, its two neighbours, 0, NULL) decides equivalence for ALL values *)
+Fixpoint lit_atoms (cs : list Z) (e : expr) : bool :=
+  match e with
+  | ELit (VBool _) | ELit VNull => true
+  | ECmp _ (ECol 0 0) (ELit (VInt c)) => existsb (Z.eqb c) cs
+  | EIsNull _ (ECol 0 0) => true
+  | EAnd a b | EOr a b => lit_atoms cs a && lit_atoms cs b
+  | ENot a => lit_atoms cs a
+  | _ => false
+  end.
+Definition reps (cs : list Z) : list value :=
+  VNull :: VInt 0 :: flat_map (fun c => [VInt (c - 1); VInt c; VInt (c + 1)]) cs.
+Definition same_on (e e' : expr) (v : value) : bool :=
+  match sev [[v]] e, sev [[v]] e' with Ok a, Ok b => value_eqb a b | _, _ => false end.
+Definition equiv_regions (e e' : expr) (cs : list Z) : bool :=
+  lit_atoms cs e && lit_atoms cs e' && forallb (same_on e e') (reps cs).
